@@ -171,8 +171,9 @@ type C15Contract struct {
 	Timestamp  uint64 // TimeLock
 	MaxVotes   byte   // Multisig
 	MinVotes   byte
-	Added      []*Actor       // Multisig: voters the owner tried to add
-	PropDest   common.Address // Multisig: proposal voters converge on
+	Added      []*Actor         // Multisig: voters the owner tried to add
+	Specials   []common.Address // Multisig: voters that are no key holders (the contract itself, ...)
+	PropDest   common.Address   // Multisig: proposal voters converge on
 	PropAmount *big.Int
 	Salts      map[common.Address][]byte // OV: voter -> salt
 	Votes      map[common.Address]byte   // OV: voter -> vote
@@ -380,6 +381,122 @@ func c15WalkAction(data []byte) (subs []c15SubAction, ok bool) {
 	return subs, true
 }
 
+// c15Dest is an address a contract tx names as a recipient.
+type c15Dest struct {
+	Addr  common.Address
+	Value *big.Int // coins the method moves there when it succeeds; nil = it moves none (a vote, a voter, a stored parameter, tokens)
+}
+
+// c15DestsOf lists the recipients a contract tx names: from its argument vector or, for the
+// oracle locks, from the parameters stored at deployment (read in the state WITHOUT the tx).
+func c15DestsOf(kind string, tx *types.Transaction, rc *types.TxReceipt, tr *TwinResult) (out []c15Dest) {
+	base := kind
+	for len(base) > 0 && (base[len(base)-1] == '1' || base[len(base)-1] == '2') {
+		base = base[:len(base)-1]
+	}
+	at := func(args [][]byte, i int) []byte {
+		if i < len(args) {
+			return args[i]
+		}
+		return nil
+	}
+	addArg := func(args [][]byte, i int, value *big.Int) {
+		if b := at(args, i); len(b) > 0 {
+			out = append(out, c15Dest{c15AddrOf(b), value})
+		}
+	}
+	num := func(b []byte) *big.Int { return new(big.Int).SetBytes(b) }
+	switch tx.Type {
+	case types.DeployContractTx:
+		att := attachments.ParseDeployContractAttachment(tx)
+		if att == nil || len(att.Code) > 0 {
+			return
+		}
+		switch base {
+		case kOL:
+			addArg(att.Args, 2, nil)
+			addArg(att.Args, 3, nil)
+		case kROL:
+			addArg(att.Args, 0, nil)
+			addArg(att.Args, 2, nil)
+			addArg(att.Args, 3, nil)
+		case kOV:
+			addArg(att.Args, 10, nil)
+		}
+	case types.TerminateContractTx:
+		att := attachments.ParseTerminateContractAttachment(tx)
+		if att == nil || tx.To == nil {
+			return
+		}
+		switch base {
+		case kTimeLock, kMultisig, kROL:
+			addArg(att.Args, 0, new(big.Int).Quo(bigOrZero(tr.Post0.State.GetContractStake(*tx.To)), big.NewInt(2)))
+		}
+	case types.CallContractTx:
+		att := attachments.ParseCallContractAttachment(tx)
+		if att == nil || tx.To == nil {
+			return
+		}
+		addr := *tx.To
+		st0 := tr.Post0.State
+		held := new(big.Int).Add(st0.GetBalance(addr), tx.AmountOrZero()) // what the contract holds while the call runs
+		stored := func(key string) []byte { return st0.GetContractValue(addr, []byte(key)) }
+		switch base + "." + att.Method {
+		case kTimeLock + ".transfer", kMultisig + ".push", kSpender + ".send":
+			addArg(att.Args, 0, num(at(att.Args, 1)))
+		case kMultisig + ".add", kMultisig + ".send", kErc20 + ".transfer", kErc20 + ".approve", kSft + ".transferTo":
+			addArg(att.Args, 0, nil)
+		case kErc20 + ".transferFrom":
+			addArg(att.Args, 1, nil)
+		case kOL + ".push":
+			if c15B0(stored("isOracleVotingFinished")) == 1 {
+				key := "failAddr"
+				if c15B0(stored("hasVotedValue")) == 1 && c15B0(stored("voted")) == c15B0(stored("value")) {
+					key = "successAddr"
+				}
+				out = append(out, c15Dest{c15AddrOf(stored(key)), held})
+			}
+		case kROL + ".push":
+			// which way the lock opened is read from the state WITH the tx
+			switch c15B0(tr.Post1.State.GetContractValue(addr, []byte("state"))) {
+			case 2:
+				out = append(out, c15Dest{c15AddrOf(stored("successAddr")), held})
+			case 3:
+				out = append(out, c15Dest{c15AddrOf(stored("failAddr")), held})
+			}
+		case kROL + ".deposit":
+			// the share of the deposit that goes to the voting named at deployment
+			rate := c15U64(stored("factEvidenceFee"))
+			if c15B0(stored("ver")) != 2 {
+				rate = 1000 * uint64(c15B0(stored("factEvidenceFee")))
+			}
+			feeShare := new(big.Int).Mul(tx.AmountOrZero(), new(big.Int).SetUint64(rate))
+			out = append(out, c15Dest{c15AddrOf(stored("oracleVoting")), feeShare.Quo(feeShare, big.NewInt(100000))})
+		}
+	}
+	return
+}
+
+// c15DestClass names the special-destination class of `ad` for a tx of `sender` addressed to (or
+// deploying) contract `self`, evaluated in a block of `coinbase`.
+func c15DestClass(ad, self, sender, coinbase common.Address, pre *state.StateDB) string {
+	switch {
+	case ad == self:
+		return dSelf
+	case ad == sender:
+		return dSender
+	case ad == common.Address{}:
+		return dZero
+	case ad == coinbase:
+		return dProposer
+	case ad == pre.GodAddress():
+		return dGod
+	case pre.GetCodeHash(ad) != nil:
+		return dContract
+	}
+	return dOther
+}
+
 func c15U64(b []byte) uint64 {
 	if len(b) < 8 {
 		return 0
@@ -544,6 +661,14 @@ func (g *C15Gen) rich(min *big.Int) *Actor {
 	return nil
 }
 
+// pusher: the destination of a Multisig proposal pushes it itself when it is a funded key holder
+func (g *C15Gen) pusher(dest common.Address) *Actor {
+	if a := g.richOr(g.W.ByAddr[dest], Dna(60)); a != nil && g.R.Bool() {
+		return a
+	}
+	return g.rich(Dna(60))
+}
+
 func (g *C15Gen) richOr(a *Actor, min *big.Int) *Actor {
 	if a != nil && !g.usedS[a.Addr] && g.st().GetBalance(a.Addr).Cmp(min) >= 0 {
 		return a
@@ -571,6 +696,69 @@ func (g *C15Gen) someAddr() common.Address {
 		}
 	}
 	return g.Funded[g.R.Intn(len(g.Funded))].Addr
+}
+
+// special-destination classes of an address argument, relative to the tx that carries it
+const (
+	dSelf     = "self"     // the contract the tx is addressed to (or deploys)
+	dSender   = "sender"   // the signer of the tx
+	dZero     = "zero"     // the zero address
+	dContract = "contract" // another contract
+	dProposer = "proposer" // the coinbase of the block the tx is evaluated in
+	dGod      = "god"      // the god address
+	dOther    = "other"
+)
+
+// destFor picks the address argument of a method that names a recipient: an ordinary address in
+// about half of the cases, otherwise one of the special classes - above all the contract's OWN
+// address `self` (for deployments the address the contract is going to have).
+func (g *C15Gen) destFor(self common.Address, from *Actor) common.Address {
+	r := g.R
+	switch r.Pick(44, 20, 8, 6, 8, 7, 7) {
+	case 1:
+		return self
+	case 2:
+		if from != nil {
+			return from.Addr
+		}
+	case 3:
+		return common.Address{}
+	case 4:
+		var l []common.Address
+		for _, c := range g.Contracts {
+			if c.Addr != self && g.alive(c) {
+				l = append(l, c.Addr)
+			}
+		}
+		if len(l) > 0 {
+			return l[r.Intn(len(l))]
+		}
+		return self
+	case 5:
+		if g.Twin != nil && g.Twin.Owner != nil {
+			return g.Twin.Owner.Addr
+		}
+	case 6:
+		return g.W.God.Addr
+	}
+	return g.someAddr()
+}
+
+// termDest: who gets the refunded half of the stake of a terminated contract - in a third of
+// the cases the contract that is being terminated
+func (g *C15Gen) termDest(c *C15Contract, from *Actor) common.Address {
+	if g.R.Intn(3) == 0 {
+		return c.Addr
+	}
+	return g.destFor(c.Addr, from)
+}
+
+// futureAddr is the address an embedded contract deployed by `from` with its next nonce will get.
+func (g *C15Gen) futureAddr(from *Actor) common.Address {
+	if from == nil {
+		return common.Address{}
+	}
+	return ContractAddr(from.Addr, &types.Transaction{Epoch: g.st().Epoch(), AccountNonce: g.W.NextNonce(from)})
 }
 
 func (g *C15Gen) live(kind string) []*C15Contract {
@@ -647,7 +835,7 @@ func (g *C15Gen) newDeploy(kind string) *cand {
 			if ownerFee > 0 && r.Bool() {
 				cd.args = append(cd.args, Dna(int64(r.Range(1, 50))).Bytes())
 				if r.Bool() {
-					cd.args = append(cd.args, g.someAddr().Bytes())
+					cd.args = append(cd.args, g.destFor(g.futureAddr(c.Owner), c.Owner).Bytes()) // refund recipient
 				}
 			}
 			c.Salts, c.Votes, c.Tries = map[common.Address][]byte{}, map[common.Address]byte{}, map[common.Address]int{}
@@ -664,7 +852,11 @@ func (g *C15Gen) newDeploy(kind string) *cand {
 				c.OV = c15Addr(r) // a voting that does not exist
 			}
 			c.Value = byte(r.Range(1, 2))
-			succ, fail := g.someAddr(), g.someAddr()
+			self := g.futureAddr(c.Owner)
+			succ, fail := g.destFor(self, c.Owner), g.destFor(self, c.Owner)
+			if kind == kROL && r.Intn(4) == 0 {
+				c.OV = self // the lock names ITSELF as its voting: every deposit sends the voting fee to itself
+			}
 			if kind == kOL {
 				cd.args = [][]byte{c.OV.Bytes(), {c.Value}, succ.Bytes(), fail.Bytes()}
 			} else {
@@ -743,38 +935,68 @@ func (g *C15Gen) candidates(c *C15Contract) []*cand {
 		if bal.Cmp(Dna(1)) < 0 && r.Intn(2) == 0 {
 			if r.Bool() {
 				// a transfer carrying a pay amount funds the contract if it succeeds
-				add("Call", "transfer", owner, Dna(int64(r.Range(2, 60))), g.someAddr().Bytes(), big.NewInt(0).Bytes())
+				add("Call", "transfer", owner, Dna(int64(r.Range(2, 60))), g.destFor(c.Addr, owner).Bytes(), big.NewInt(0).Bytes())
 			} else {
 				g.fundContract(c, Dna(int64(r.Range(2, 60))))
 			}
 		}
-		add("Call", "transfer", owner, nil, g.someAddr().Bytes(), part(bal, r).Bytes())
+		add("Call", "transfer", owner, nil, g.destFor(c.Addr, owner).Bytes(), part(bal, r).Bytes())
+		if bal.Sign() > 0 && r.Intn(3) == 0 {
+			// a transfer to the contract ITSELF (with and without a pay amount on top)
+			pay := big.NewInt(0)
+			if r.Bool() {
+				pay = Dna(int64(r.Range(1, 9)))
+			}
+			add("Call", "transfer", owner, pay, c.Addr.Bytes(), part(new(big.Int).Add(bal, pay), r).Bytes())
+		}
 		if r.Intn(3) == 0 {
-			add("Call", "transfer", owner, nil, g.someAddr().Bytes(), new(big.Int).Add(bal, big.NewInt(int64(r.Range(1, 1000)))).Bytes()) // more than it holds
+			add("Call", "transfer", owner, nil, g.destFor(c.Addr, owner).Bytes(), new(big.Int).Add(bal, big.NewInt(int64(r.Range(1, 1000)))).Bytes()) // more than it holds
 		}
 		if r.Intn(4) == 0 {
-			add("Call", "transfer", g.other(c.Owner), nil, g.someAddr().Bytes(), part(bal, r).Bytes())
+			add("Call", "transfer", g.other(c.Owner), nil, g.destFor(c.Addr, owner).Bytes(), part(bal, r).Bytes())
 		}
 		if now >= c.Timestamp && (bal.Cmp(g.dust()) <= 0 || r.Intn(5) == 0) {
-			add("Terminate", "terminate", owner, nil, g.someAddr().Bytes())
+			add("Terminate", "terminate", owner, nil, g.termDest(c, owner).Bytes())
 		} else if r.Intn(6) == 0 {
-			add("Terminate", "terminate", owner, nil, g.someAddr().Bytes())
+			add("Terminate", "terminate", owner, nil, g.termDest(c, owner).Bytes())
 		}
 		if r.Intn(8) == 0 {
-			add("Terminate", "terminate", g.other(c.Owner), nil, g.someAddr().Bytes())
+			add("Terminate", "terminate", g.other(c.Owner), nil, g.destFor(c.Addr, owner).Bytes())
 		}
 	case kMultisig:
 		st := c15B0(g.cval(c.Addr, "state"))
 		if st == 1 { // uninitialized
 			v := g.Funded[r.Intn(len(g.Funded))]
-			if cd := add("Call", "add", owner, nil, v.Addr.Bytes()); cd != nil {
-				c.Added = append(c.Added, v)
+			// a voter that is not a key holder (the contract itself, the zero address, another
+			// contract, ...) as long as enough seats remain for voters that can actually vote
+			special, regular := 0, true
+			for _, sa := range c.Specials {
+				if g.st().GetContractValue(c.Addr, append([]byte("addr"), sa.Bytes()...)) != nil {
+					special++
+				}
+			}
+			if int(c.MaxVotes)-special > int(c.MinVotes) && r.Intn(2) == 0 {
+				sa := g.destFor(c.Addr, owner)
+				if r.Intn(5) < 3 {
+					sa = c.Addr
+				}
+				if g.W.ByAddr[sa] == nil || owner != nil && sa == owner.Addr {
+					if cd := add("Call", "add", owner, nil, sa.Bytes()); cd != nil {
+						c.Specials = append(c.Specials, sa)
+						regular = false
+					}
+				}
+			}
+			if regular {
+				if cd := add("Call", "add", owner, nil, v.Addr.Bytes()); cd != nil {
+					c.Added = append(c.Added, v)
+				}
 			}
 			if r.Intn(4) == 0 {
 				add("Call", "add", g.other(c.Owner), nil, v.Addr.Bytes())
 			}
 			if r.Intn(4) == 0 {
-				add("Call", "push", owner, nil, g.someAddr().Bytes(), Dna(1).Bytes())
+				add("Call", "push", owner, nil, g.destFor(c.Addr, owner).Bytes(), Dna(1).Bytes())
 			}
 		} else {
 			if bal.Cmp(Dna(1)) < 0 && r.Intn(3) != 0 {
@@ -790,7 +1012,10 @@ func (g *C15Gen) candidates(c *C15Contract) []*cand {
 				}
 			}
 			if c.PropAmount == nil || c.PropTries > 10 {
-				c.PropDest, c.PropAmount, c.PropTries = g.someAddr(), part(bal, r), 0
+				c.PropDest, c.PropAmount, c.PropTries = g.destFor(c.Addr, g.Funded[r.Intn(len(g.Funded))]), part(bal, r), 0
+				if r.Intn(4) == 0 {
+					c.PropDest = c.Addr // the voters agree on sending the funds to the multisig itself
+				}
 			}
 			c.PropTries++
 			matching := 0
@@ -806,31 +1031,32 @@ func (g *C15Gen) candidates(c *C15Contract) []*cand {
 			}
 			minVotes := int(c15B0(g.cval(c.Addr, "minVotes")))
 			if matching >= minVotes && c.PropAmount.Sign() > 0 {
-				add("Call", "push", g.rich(Dna(60)), nil, c.PropDest.Bytes(), c.PropAmount.Bytes())
+				// the destination itself pushes when it is one of the funded key holders
+				add("Call", "push", g.pusher(c.PropDest), nil, c.PropDest.Bytes(), c.PropAmount.Bytes())
 				add("Call", "push", g.rich(Dna(60)), nil, c.PropDest.Bytes(), c.PropAmount.Bytes()) // (twice: more weight)
 			} else if len(missing) > 0 && c.PropAmount.Sign() > 0 {
 				v := missing[r.Intn(len(missing))]
 				d, am := c.PropDest, c.PropAmount
 				if r.Intn(6) == 0 {
-					d, am = g.someAddr(), part(bal, r)
+					d, am = g.destFor(c.Addr, v), part(bal, r)
 				}
 				add("Call", "send", g.richOr(v, Dna(60)), nil, d.Bytes(), am.Bytes())
 			}
 			if r.Intn(4) == 0 {
-				add("Call", "push", g.rich(Dna(60)), nil, g.someAddr().Bytes(), new(big.Int).Add(bal, big.NewInt(7)).Bytes())
+				add("Call", "push", g.rich(Dna(60)), nil, g.destFor(c.Addr, nil).Bytes(), new(big.Int).Add(bal, big.NewInt(7)).Bytes())
 			}
 			if r.Intn(6) == 0 {
-				add("Call", "send", g.rich(Dna(60)), nil, g.someAddr().Bytes(), part(bal, r).Bytes()) // probably not a voter
+				add("Call", "send", g.rich(Dna(60)), nil, g.destFor(c.Addr, nil).Bytes(), part(bal, r).Bytes()) // probably not a voter
 			}
 			if r.Intn(6) == 0 {
-				add("Call", "add", owner, nil, g.someAddr().Bytes())
+				add("Call", "add", owner, nil, g.destFor(c.Addr, owner).Bytes())
 			}
 		}
 		if bal.Cmp(g.dust()) <= 0 && g.Step-c.Born > 45 && r.Intn(3) == 0 || r.Intn(14) == 0 {
-			add("Terminate", "terminate", owner, nil, g.someAddr().Bytes())
+			add("Terminate", "terminate", owner, nil, g.termDest(c, owner).Bytes())
 		}
 		if r.Intn(12) == 0 {
-			add("Terminate", "terminate", g.other(c.Owner), nil, g.someAddr().Bytes())
+			add("Terminate", "terminate", g.other(c.Owner), nil, g.destFor(c.Addr, owner).Bytes())
 		}
 	case kOV:
 		// life-cycle duties are generated by ovDuties; here only out-of-protocol extras
@@ -879,6 +1105,9 @@ func (g *C15Gen) candidates(c *C15Contract) []*cand {
 				dep = part(minDep, r) // too low
 			}
 			add("Call", "deposit", g.rich(new(big.Int).Add(dep, Dna(60))), dep)
+			if c.OV == c.Addr {
+				add("Call", "deposit", g.rich(new(big.Int).Add(dep, Dna(60))), dep) // (a lock that is its own voting: more weight)
+			}
 		}
 		if st == 1 || r.Intn(4) == 0 {
 			add("Call", "push", g.rich(Dna(60)), nil)
@@ -887,10 +1116,10 @@ func (g *C15Gen) candidates(c *C15Contract) []*cand {
 			add("Call", "refund", g.rich(Dna(60)), nil)
 		}
 		if bal.Sign() == 0 && r.Intn(2) == 0 || r.Intn(8) == 0 {
-			add("Terminate", "terminate", owner, nil, g.someAddr().Bytes())
+			add("Terminate", "terminate", owner, nil, g.termDest(c, owner).Bytes())
 		}
 		if r.Intn(10) == 0 {
-			add("Terminate", "terminate", g.other(c.Owner), nil, g.someAddr().Bytes())
+			add("Terminate", "terminate", g.other(c.Owner), nil, g.destFor(c.Addr, owner).Bytes())
 		}
 	case kErc20:
 		if len(c.Holders) == 0 {
@@ -898,6 +1127,18 @@ func (g *C15Gen) candidates(c *C15Contract) []*cand {
 		}
 		h := c.Holders[r.Intn(len(c.Holders))]
 		to := g.Funded[r.Intn(len(g.Funded))]
+		toAddr := to.Addr // recipient of a plain transfer: sometimes the holder itself or the token contract
+		switch r.Intn(8) {
+		case 0, 1, 2:
+			to, toAddr = h, h.Addr
+		case 3:
+			toAddr = g.destFor(c.Addr, h)
+			if a := g.W.ByAddr[toAddr]; a != nil {
+				to = a
+			} else {
+				to = nil
+			}
+		}
 		amt := big.NewInt(int64(r.Range(1, 5000)))
 		pay := big.NewInt(0)
 		if r.Intn(5) == 0 {
@@ -905,25 +1146,28 @@ func (g *C15Gen) candidates(c *C15Contract) []*cand {
 		}
 		switch r.Intn(8) {
 		case 0, 1:
-			if cd := add("Call", "transfer", g.richOr(h, Dna(300)), pay, to.Addr.Bytes(), amt.Bytes()); cd != nil && len(c.Holders) < 6 {
+			if cd := add("Call", "transfer", g.richOr(h, Dna(300)), pay, toAddr.Bytes(), amt.Bytes()); cd != nil && len(c.Holders) < 6 && to != nil {
 				c.Holders = append(c.Holders, to)
 			}
 		case 2, 6:
 			// approvals by the deployer (who holds the supply) so that transferFrom can succeed later
+			if to == nil {
+				to = g.Funded[r.Intn(len(g.Funded))]
+			}
 			if cd := add("Call", "approve", g.richOr(c.Owner, Dna(300)), pay, to.Addr.Bytes(), amt.Bytes()); cd != nil && len(c.Allow) < 6 {
 				c.Allow = append(c.Allow, [2]*Actor{c.Owner, to})
 			}
 		case 3, 7:
 			if len(c.Allow) > 0 && r.Intn(5) != 0 {
 				p := c.Allow[r.Intn(len(c.Allow))]
-				add("Call", "transferFrom", g.richOr(p[1], Dna(300)), pay, p[0].Addr.Bytes(), to.Addr.Bytes(), big.NewInt(int64(r.Range(1, 40))).Bytes())
+				add("Call", "transferFrom", g.richOr(p[1], Dna(300)), pay, p[0].Addr.Bytes(), toAddr.Bytes(), big.NewInt(int64(r.Range(1, 40))).Bytes())
 			} else {
-				add("Call", "transferFrom", g.rich(Dna(300)), pay, h.Addr.Bytes(), to.Addr.Bytes(), amt.Bytes())
+				add("Call", "transferFrom", g.rich(Dna(300)), pay, h.Addr.Bytes(), toAddr.Bytes(), amt.Bytes())
 			}
 		case 4:
 			add("Call", "getBalance", g.rich(Dna(300)), pay, h.Addr.Bytes())
 		case 5:
-			add("Call", "transfer", g.rich(Dna(300)), pay, to.Addr.Bytes(), new(big.Int).Lsh(big.NewInt(1), uint(r.Range(20, 120))).Bytes()) // more tokens than anybody has
+			add("Call", "transfer", g.rich(Dna(300)), pay, toAddr.Bytes(), new(big.Int).Lsh(big.NewInt(1), uint(r.Range(20, 120))).Bytes()) // more tokens than anybody has
 		}
 	case kInc:
 		add("Call", "inc", g.rich(Dna(300)), nil, u64b(uint64(r.Intn(1000))))
@@ -937,7 +1181,7 @@ func (g *C15Gen) candidates(c *C15Contract) []*cand {
 		case 0:
 			add("Call", "getBalance", g.rich(Dna(300)), nil)
 		case 1:
-			add("Call", "transferTo", g.richOr(c.Owner, Dna(300)), nil, g.someAddr().Bytes(), big.NewInt(int64(r.Range(0, 5))).Bytes())
+			add("Call", "transferTo", g.richOr(c.Owner, Dna(300)), nil, g.destFor(c.Addr, c.Owner).Bytes(), big.NewInt(int64(r.Range(0, 5))).Bytes())
 		case 2:
 			add("Call", "receive", g.rich(Dna(300)), nil, big.NewInt(5).Bytes(), g.someAddr().Bytes())
 		case 3:
@@ -956,10 +1200,15 @@ func (g *C15Gen) candidates(c *C15Contract) []*cand {
 		case 1:
 			amt = new(big.Int).Add(have, Dna(int64(r.Range(1, 1000))))
 		}
+		from := g.rich(new(big.Int).Add(pay, Dna(300)))
 		if r.Intn(3) == 0 {
-			add("Call", "burn", g.rich(new(big.Int).Add(pay, Dna(300))), pay, amt.Bytes())
+			add("Call", "burn", from, pay, amt.Bytes())
 		} else {
-			add("Call", "send", g.rich(new(big.Int).Add(pay, Dna(300))), pay, g.someAddr().Bytes(), amt.Bytes())
+			dest := g.destFor(c.Addr, from)
+			if r.Intn(4) == 0 {
+				dest = c.Addr
+			}
+			add("Call", "send", from, pay, dest.Bytes(), amt.Bytes())
 		}
 	case kCases:
 		sub := []string{kInc, kInc, kSum, kErc20}[r.Intn(4)]
@@ -1481,4 +1730,258 @@ func (g *C15Gen) NextBatch() (acts []*C15Action, multis []*C15Multi, plain []*ty
 func (g *C15Gen) JumpClock(d time.Duration) {
 	setClock(g.W.Now().Add(d))
 	g.jumped = true
+}
+
+// ------------------------------------------------------------------ same-block sequences
+
+// The sequence oracle (c15_seq_test.go) puts the contract transactions of a batch into ONE block
+// of the observer. The generator adds the two controlled ends of such a block: transactions built
+// to FAIL and transactions built to SUCCEED that any key holder can sign, so that the harness is
+// free to choose signers whose nonces put them first / last in the block.
+
+// SeqSigners returns funded actors the current batch did not use (and that have nothing
+// waiting in a pool), sorted by their next nonce.
+func (g *C15Gen) SeqSigners() []*Actor {
+	need := new(big.Int).Add(g.minStake(), Dna(3000))
+	var l []*Actor
+	for _, a := range g.Funded {
+		if g.usedS[a.Addr] || g.st().GetBalance(a.Addr).Cmp(need) < 0 || g.W.NextNonce(a) != g.W.StateNonce(a) {
+			continue
+		}
+		l = append(l, a)
+	}
+	sort.SliceStable(l, func(i, j int) bool { return g.W.StateNonce(l[i]) < g.W.StateNonce(l[j]) })
+	return l
+}
+
+var c15SeqFailKinds = []string{"deploy-noargs", "deploy-short", "deploy-garbage", "deploy-nogas", "call-unknown-method", "foreign-caller", "foreign-terminate",
+	"wasm-call-args", "wasm-deploy-broken", "call-nogas", "deposit-low"}
+
+// SeqFail builds a contract tx signed by `from` that is expected to fail, of the j-th class.
+// Nothing here needs a particular signer. Returns nil when the class has no target right now.
+func (g *C15Gen) SeqFail(j int, from *Actor) *C15Action {
+	r := g.R
+	class := c15SeqFailKinds[j%len(c15SeqFailKinds)]
+	emb := c15EmbeddedKinds[(j/len(c15SeqFailKinds))%len(c15EmbeddedKinds)]
+	deploy := func(kind string) *cand {
+		cd := g.newDeploy(kind)
+		if cd == nil {
+			return nil
+		}
+		cd.from, cd.c.Owner, cd.noMut = from, from, true
+		return cd
+	}
+	liveOf := func(pred func(c *C15Contract) bool) *C15Contract {
+		var l []*C15Contract
+		for _, c := range g.Contracts {
+			if g.alive(c) && pred(c) {
+				l = append(l, c)
+			}
+		}
+		if len(l) == 0 {
+			return nil
+		}
+		return l[r.Intn(len(l))]
+	}
+	call := func(txKind string, c *C15Contract, method string, amount *big.Int, args ...[]byte) *cand {
+		if amount == nil {
+			amount = big.NewInt(0)
+		}
+		return &cand{txKind: txKind, kind: c.Kind, c: c, from: from, method: method, amount: amount, args: args, noMut: true}
+	}
+	var cd *cand
+	switch class {
+	case "deploy-noargs": // contract.Deploy returns an error before it wrote anything
+		if cd = deploy(emb); cd != nil {
+			cd.args, cd.shape = nil, "mut:args-drop-all"
+		}
+	case "deploy-short": // ... after it wrote the leading parameters
+		if cd = deploy(emb); cd != nil {
+			if len(cd.args) > 0 {
+				cd.args = cd.args[:len(cd.args)-1]
+			}
+			if emb == kOV {
+				cd.args = cd.args[:1] // only the first two parameters of a voting are mandatory
+			}
+			cd.shape = "mut:args-drop-last"
+		}
+	case "deploy-garbage":
+		if cd = deploy(emb); cd != nil && len(cd.args) > 0 {
+			i := r.Intn(len(cd.args))
+			if r.Bool() {
+				i = 0
+			}
+			cd.args = append([][]byte{}, cd.args...)
+			cd.args[i] = r.Bytes(r.Range(1, 5) * 3)
+			cd.shape = "mut:arg-garbage"
+		}
+	case "deploy-nogas": // the gas runs out inside Deploy (a panic, not an error value)
+		if cd = deploy(emb); cd != nil {
+			cd.gas = []string{"exact", "tiny", "low"}[r.Intn(3)]
+			cd.shape = "mut:gas-" + cd.gas
+		}
+	case "call-unknown-method":
+		if c := liveOf(func(c *C15Contract) bool { return true }); c != nil {
+			m := c15ForeignMethods[r.Intn(len(c15ForeignMethods))]
+			for _, own := range c15Methods[c.Kind] {
+				if own == m {
+					m = "noSuchMethod"
+				}
+			}
+			cd = call("Call", c, m, nil, r.Bytes(20), big.NewInt(1).Bytes())
+			cd.shape = "mut:method"
+		}
+	case "foreign-caller": // a method only the owner / a voter may call
+		if c := liveOf(func(c *C15Contract) bool { return (c.Kind == kTimeLock || c.Kind == kMultisig) && c.Owner != from }); c != nil {
+			if c.Kind == kTimeLock {
+				cd = call("Call", c, "transfer", nil, g.destFor(c.Addr, from).Bytes(), big.NewInt(1).Bytes())
+			} else if c15B0(g.cval(c.Addr, "state")) == 1 {
+				cd = call("Call", c, "add", nil, from.Addr.Bytes())
+			} else {
+				cd = call("Call", c, "send", nil, g.destFor(c.Addr, from).Bytes(), big.NewInt(1).Bytes())
+			}
+			cd.shape = "mut:caller"
+		}
+	case "foreign-terminate":
+		if c := liveOf(func(c *C15Contract) bool { return !c15IsWasmKind(c.Kind) && c.Kind != kOV && c.Owner != from }); c != nil {
+			cd = call("Terminate", c, "terminate", nil, g.destFor(c.Addr, from).Bytes())
+			cd.shape = "mut:caller"
+		}
+	case "wasm-call-args": // a WASM export called with an argument vector it cannot decode
+		if c := liveOf(func(c *C15Contract) bool {
+			return c.Kind == kInc || c.Kind == kErc20 || c.Kind == kSum || c.Kind == kSpender
+		}); c != nil {
+			m := c15Methods[c.Kind][0]
+			switch r.Intn(3) {
+			case 0:
+				cd = call("Call", c, m, nil)
+			case 1:
+				cd = call("Call", c, m, nil, r.Bytes(r.Range(1, 7)))
+			default:
+				cd = call("Call", c, m, Dna(int64(r.Range(1, 3))), r.Bytes(3), r.Bytes(40), r.Bytes(1))
+			}
+			cd.shape = "mut:args-garbage"
+		}
+	case "wasm-deploy-broken":
+		if len(g.live(kInc))+len(g.live(kErc20))+len(g.live(kSpender)) > 0 || g.hasKind(kInc) {
+			if cd = deploy(kInc); cd != nil {
+				code := append([]byte{}, cd.code...)
+				if r.Bool() {
+					code = code[:r.Range(8, len(code)-1)]
+				} else {
+					code = r.Bytes(r.Range(1, 200))
+				}
+				cd.code, cd.shape = code, "mut:code"
+			}
+		}
+	case "call-nogas": // the gas runs out inside a call that would succeed (any-caller methods)
+		if sc := g.seqAnyoneCall(from); sc != nil {
+			cd = sc
+			cd.gas = []string{"exact", "tiny", "low"}[r.Intn(3)]
+			cd.shape = "mut:gas-" + cd.gas
+		}
+	case "deposit-low": // pay amount below what the method demands
+		if c := liveOf(func(c *C15Contract) bool { return c.Kind == kROL }); c != nil {
+			cd = call("Call", c, "deposit", big.NewInt(int64(r.Range(0, 1000))))
+			cd.shape = "mut:amount"
+		}
+	}
+	if cd == nil {
+		return nil
+	}
+	return g.build(cd)
+}
+
+func (g *C15Gen) hasKind(kind string) bool {
+	for _, k := range g.Kinds {
+		if k == kind {
+			return true
+		}
+	}
+	return false
+}
+
+// seqAnyoneCall proposes a call that succeeds whoever signs it (given the on-chain state).
+func (g *C15Gen) seqAnyoneCall(from *Actor) *cand {
+	r := g.R
+	var l []*cand
+	mk := func(c *C15Contract, method string, amount *big.Int, args ...[]byte) {
+		if amount == nil {
+			amount = big.NewInt(0)
+		}
+		l = append(l, &cand{txKind: "Call", kind: c.Kind, c: c, from: from, method: method, amount: amount, args: args, shape: "valid", noMut: true})
+	}
+	now := g.nextTime()
+	for _, c := range g.Contracts {
+		if !g.alive(c) {
+			continue
+		}
+		switch c.Kind {
+		case kInc:
+			mk(c, "inc", nil, u64b(uint64(r.Intn(1000))))
+		case kErc20:
+			mk(c, "approve", nil, g.Funded[r.Intn(len(g.Funded))].Addr.Bytes(), big.NewInt(int64(r.Range(1, 50))).Bytes())
+		case kROL:
+			if now+60 < c.Deadline && c15B0(g.cval(c.Addr, "state")) == 1 && c.OV != c.Addr {
+				mk(c, "deposit", new(big.Int).Add(new(big.Int).Mul(g.fpg(), big.NewInt(10000)), Dna(int64(r.Range(1, 20)))))
+			}
+		case kOV:
+			if c15B0(g.cval(c.Addr, "state")) == 1 {
+				mk(c, "addStake", Dna(int64(r.Range(1, 4))))
+			}
+		case kOL:
+			mk(c, "checkOracleVoting", nil) // succeeds once the voting it is bound to is finished
+		case kSpender:
+			if bal := g.balanceOf(c.Addr); bal.Sign() > 0 {
+				mk(c, "send", nil, g.destFor(c.Addr, from).Bytes(), part(bal, r).Bytes())
+			}
+		}
+	}
+	if len(l) == 0 {
+		return nil
+	}
+	return l[r.Intn(len(l))]
+}
+
+// SeqOk builds a contract tx signed by `from` that is expected to succeed: deployments of the
+// parameter-free kinds (embedded and, where enabled, WASM) and any-caller calls.
+func (g *C15Gen) SeqOk(j int, from *Actor) *C15Action {
+	var cd *cand
+	deploy := func(kind string) *cand {
+		d := g.newDeploy(kind)
+		if d != nil {
+			d.from, d.c.Owner, d.noMut = from, from, true
+		}
+		return d
+	}
+	switch j % 5 {
+	case 0:
+		cd = deploy(kTimeLock)
+	case 1:
+		cd = deploy(kMultisig)
+	case 2:
+		if g.hasKind(kInc) {
+			cd = deploy([]string{kInc, kSpender, kErc20}[(j/5)%3])
+		}
+	case 3, 4:
+		cd = g.seqAnyoneCall(from)
+	}
+	if cd == nil {
+		cd = deploy([]string{kTimeLock, kMultisig}[j%2])
+	}
+	if cd == nil {
+		return nil
+	}
+	return g.build(cd)
+}
+
+// Resign gives the tx of an action another nonce (same everything else).
+func (a *C15Action) Resign(nonce uint32) *C15Action {
+	if a.Tx.AccountNonce == nonce {
+		return a
+	}
+	b := *a
+	tx := a.Tx
+	b.Tx = SignedTx(a.From, tx.Type, tx.To, tx.Amount, tx.MaxFee, tx.Tips, nonce, tx.Epoch, tx.Payload)
+	return &b
 }
